@@ -8,7 +8,7 @@ def add(name, obl, inst, file=SC, tier="quick", shape=None, **kw):
     hs.append(H(name, file, inst, obl, profile="R", tier=tier, shape=shape or {}, **kw))
 
 
-ALPH = "ASCII + 2-byte UTF-8 sequences (validated)"
+ALPH = "ASCII + 2- and 3-byte UTF-8 sequences (validated)"
 for n in (1, 2, 3, 4):
     for p in range(0, n + 1):
         nm = "helpers_n%d_p%d" % (n, p)
@@ -74,11 +74,11 @@ PROP = Property(
     harnesses=hs,
     assumptions=[
         "per-routine (assume-guarantee) contracts from an arbitrary cursor satisfying I07 (cursor <= len, on a character boundary); the recursive next_token call inside scan_number is replaced by a contract stub that checks I07 at the call site",
-        "text alphabet: all ASCII bytes and all 2-byte UTF-8 sequences; 3- and 4-byte sequences are outside the bound",
+        "text alphabet: all ASCII bytes and all 2- and 3-byte UTF-8 sequences; 4-byte sequences are outside the bound",
         "memchr2 scalar stub; message formatting stubbed; ArenaString container model for the escape buffer (appends into pre-allocated capacity)",
         "the parser and the resolver are not executed symbolically (arena AST + recursion); their spans are built from token spans only, which is an argument, not a check",
     ],
     stubs=["memchr_rs::memchr2::memchr2 -> scalar loop", "core::fmt::write -> no-op", "ArenaString::{new_in,reserve_exact,push_str,push} -> container model"],
     outside=["texts longer than 4 bytes (composition of the per-routine contracts over longer texts is argued, not checked)",
-             "parser totality", "resolver totality", "3-/4-byte UTF-8 sequences"],
+             "parser totality", "resolver totality", "4-byte UTF-8 sequences"],
 )
